@@ -27,8 +27,8 @@ def cleanup(root):
 # which name-table write comes k-th follows hash-map iteration order, the step it belongs to does not)
 STEP_OF = {"set_db_ts_max": "ts_max", "write_db_ruv": "ruv_del", "write_db_ruv_add": "ruv_add", "write_identry": "entries",
            "delete_identry": "entries", "write_idl": "idl", "sql_commit": "sql_commit", "none": "none",
-           "purge_idxs": "reload", "create_table": "reload", "create_idx": "reload", "store_idx_slopes": "reload",
-           "set_db_version": "reload", "post_sql_commit": "post_commit"}
+           "purge_idxs": "idx_purge", "create_table": "idx_create", "create_idx": "idx_create",
+           "store_idx_slopes": "idx_slopes", "set_db_version": "idx_version", "post_sql_commit": "post_commit"}
 
 
 def step_of(point):
